@@ -149,9 +149,9 @@ Definition h_deposit (w : hworld) (a b : nat) (amount : Z) (up_to_limit : bool) 
   let* _ := validate_asset_tags bk (ha_la ac) in
   let* _ := validate_bank_state bk KFailsIfPausedOrReduce in
   let* _ := check (negb (aflag ac ACCOUNT_DISABLED) && negb (aflag ac ACCOUNT_IN_RECEIVERSHIP)) (E E_AccountDisabled) in
-  let* dep := if up_to_limit then let* c := remaining_deposit_capacity bk in Ok (Z.min amount c) else Ok amount in
-  if dep =? 0 then Ok w else
   let* bk1 := accrue_interest bk (hw_pf w) (hw_now w) in
+  let* dep := if up_to_limit then let* c := remaining_deposit_capacity bk1 in Ok (Z.min amount c) else Ok amount in
+  if dep =? 0 then Ok (put_hbank w b (set_hb_b bk1 hb)) else
   let* (i, la1) := wrapper_find_or_create (bank_pk b) bk1 (ha_la ac) (hw_now w) in
   let* bl := nth_res i la1 in
   let* (bk2, bl2) := increase_balance bk1 bl (t64 w) (of_int dep) IncDepositOnly in
